@@ -2,6 +2,8 @@ package verifsim
 
 import (
 	"fmt"
+	"github.com/idena-network/idena-go/blockchain/fee"
+	"github.com/idena-network/idena-go/blockchain/validation"
 	"math/big"
 	"testing"
 	"time"
@@ -29,6 +31,7 @@ type tamperCtx struct {
 	r      *verifutil.Rng
 	b      *types.Block
 	other  *types.Block // an earlier block of the same kind (values "taken from another block")
+	same   *types.Block // an earlier block built by the same proposer (nil if none yet)
 	victim *Replica
 }
 
@@ -321,6 +324,60 @@ func tamperOps() []tamperOp {
 			return nb
 		}})
 	}
+	// the seed and its proof taken as a pair from an earlier block of the SAME proposer (a valid VRF
+	// output of that key, but over another parent seed / height)
+	ops = append(ops, tamperOp{name: "Seed/pair-replayed-from-earlier-block-of-the-proposer", prop: true, f: func(c *tamperCtx) *types.Block {
+		if c.same == nil || c.same.Header.ProposedHeader == nil {
+			return nil
+		}
+		nb := cloneBlock(c.b)
+		nb.Header.ProposedHeader.BlockSeed = c.same.Header.ProposedHeader.BlockSeed
+		nb.Header.ProposedHeader.SeedProof = append([]byte{}, c.same.Header.ProposedHeader.SeedProof...)
+		return nb
+	}})
+	// more transactions than the block gas limit admits, with an invalid one behind the crossing point
+	for _, tail := range []string{"duplicate-of-a-block-tx", "unaffordable"} {
+		tail := tail
+		ops = append(ops, tamperOp{name: "Body/over-gas-limit-then-" + tail, prop: true, f: func(c *tamperCtx) *types.Block {
+			nb := cloneBlock(c.b)
+			inBlock := map[common.Address]bool{}
+			for _, tx := range nb.Body.Transactions {
+				inBlock[senderOf(tx)] = true
+			}
+			a := c.w.pickActor(c.r, func(a *Actor, _ stateIdentity) bool {
+				return !inBlock[a.Addr] && c.w.Balance(a.Addr).Cmp(Dna(3000)) > 0
+			})
+			if a == nil {
+				return nil
+			}
+			to := c.w.God.Addr
+			ep := c.victim.AppState.State.Epoch()
+			nonce := c.w.StateNonce(a)
+			fpg := c.victim.AppState.State.FeePerGas()
+			for k := 0; k < 12; k++ { // 12 x 100 KiB payloads: four times the block gas limit
+				pl := c.r.Bytes(100 * 1024)
+				probe := SignedTx(a, types.SendTx, &to, big.NewInt(1), Dna(1), nil, nonce+uint32(k), ep, pl)
+				maxFee := new(big.Int).Mul(fee.CalculateFee(c.victim.AppState.ValidatorsCache.NetworkSize(), fpg, probe), big.NewInt(2))
+				nb.Body.Transactions = append(nb.Body.Transactions, SignedTx(a, types.SendTx, &to, big.NewInt(1), maxFee, nil, nonce+uint32(k), ep, pl))
+			}
+			switch tail {
+			case "duplicate-of-a-block-tx":
+				if len(c.b.Body.Transactions) == 0 {
+					return nil
+				}
+				nb.Body.Transactions = append(nb.Body.Transactions, c.b.Body.Transactions[0])
+			default:
+				b2 := c.w.pickActor(c.r, func(x *Actor, _ stateIdentity) bool { return x != a && !inBlock[x.Addr] })
+				if b2 == nil {
+					return nil
+				}
+				amount := new(big.Int).Add(c.w.Balance(b2.Addr), Dna(1000))
+				nb.Body.Transactions = append(nb.Body.Transactions, SignedTx(b2, types.SendTx, &to, amount, Dna(100), nil, c.w.StateNonce(b2), ep, nil))
+			}
+			recommit(c, nb, true)
+			return nb
+		}})
+	}
 	return ops
 }
 
@@ -353,6 +410,7 @@ func TestVerifC03(t *testing.T) {
 		w := NewWorld(optsFor(sc, seed))
 		victim := w.NewReplica(w.God, dbm.NewMemDB())
 		victim.Name, victim.Observer = "victim", true
+		twin := w.AddTwin()
 		// an honest-looking proposer that is NOT eligible: a plain account / an offline identity
 		outsiderA := NewActor(seed, "outsider", 0)
 		if !startScenario(w, rep, false) {
@@ -363,6 +421,7 @@ func TestVerifC03(t *testing.T) {
 		s.Hostile, s.MaxTxs, s.EmptyPct = 10, 7, 20
 		r := verifutil.NewRng(seed, 33)
 		lastOfKind := map[bool]*types.Block{}
+		lastByProposer := map[string]*types.Block{}
 		everOnline := map[common.Address]bool{}
 		for i := 0; i < steps; i++ {
 			rep.Progress("C03 scenario %d seed %d step %d", sc, seed, i)
@@ -377,6 +436,9 @@ func TestVerifC03(t *testing.T) {
 					kind = "empty"
 				}
 				ctx := &tamperCtx{w: w, r: r, b: b, other: lastOfKind[b.IsEmpty()], victim: victim}
+				if !b.IsEmpty() {
+					ctx.same = lastByProposer[string(b.Header.ProposedHeader.ProposerPubKey)]
+				}
 				origBytes, _ := b.ToBytes()
 				before := snapVictim(victim)
 				list := ops
@@ -417,7 +479,78 @@ func TestVerifC03(t *testing.T) {
 						}
 					}
 				}
+				// a block whose last tx crosses the block gas limit (allowed) with something appended behind it
+				if !b.IsEmpty() && len(b.Body.Transactions) > 0 {
+					used := uint64(0)
+					for _, tx := range b.Body.Transactions {
+						used += uint64(fee.CalculateGas(tx))
+					}
+					if _, rcs, err := victim.Chain.VerifValidateOnCheck(b); err == nil {
+						for _, rc := range rcs {
+							used += rc.GasUsed
+						}
+					}
+					if used > types.MaxBlockSize(w.Cons.EnableUpgrade11) {
+						rep.Count("blocks_crossing_the_gas_limit_with_their_last_tx", 1)
+						inBlock := map[common.Address]bool{}
+						for _, tx := range b.Body.Transactions {
+							inBlock[senderOf(tx)] = true
+						}
+						for _, tail := range []string{"valid-tx", "duplicate-of-a-block-tx", "unaffordable-tx"} {
+							nb := cloneBlock(b)
+							to := w.God.Addr
+							switch tail {
+							case "valid-tx":
+								a := w.pickActor(r, func(a *Actor, _ stateIdentity) bool { return !inBlock[a.Addr] && w.Balance(a.Addr).Cmp(Dna(5)) > 0 })
+								if a == nil {
+									continue
+								}
+								probe := SignedTx(a, types.SendTx, &to, Dna(1), Dna(1), nil, w.StateNonce(a), victim.AppState.State.Epoch(), nil)
+								maxFee := new(big.Int).Add(new(big.Int).Mul(fee.CalculateFee(victim.AppState.ValidatorsCache.NetworkSize(), victim.AppState.State.FeePerGas(), probe), big.NewInt(3)), big.NewInt(1000))
+								nb.Body.Transactions = append(nb.Body.Transactions, SignedTx(a, types.SendTx, &to, Dna(1), maxFee, nil, probe.AccountNonce, probe.Epoch, nil))
+							case "duplicate-of-a-block-tx":
+								nb.Body.Transactions = append(nb.Body.Transactions, b.Body.Transactions[0])
+							default:
+								a := w.pickActor(r, func(a *Actor, _ stateIdentity) bool { return !inBlock[a.Addr] })
+								if a == nil {
+									continue
+								}
+								amount := new(big.Int).Add(w.Balance(a.Addr), Dna(1000))
+								nb.Body.Transactions = append(nb.Body.Transactions, SignedTx(a, types.SendTx, &to, amount, Dna(100), nil, w.StateNonce(a), victim.AppState.State.Epoch(), nil))
+							}
+							recommit(ctx, nb, true)
+							tryTampered(rep, w, victim, &before, b, nb, "Body/append-behind-the-gas-limit-crossing/"+tail, kind)
+						}
+					}
+				}
 				rep.Count("blocks_tampered:"+kind, 1)
+			}
+			// directed: a proposal whose cumulative gas sits exactly on the limit with one more tx following
+			if i%30 == 17 && twin.CanPropose() {
+				if gens := w.ExactCapTxs(s.R, twin); gens != nil {
+					ok := true
+					for _, g := range gens {
+						if err := twin.TxPool.AddExternalTxs(validation.InboundTx, g.Tx); err != nil {
+							ok = false
+						}
+					}
+					if ok {
+						doTamper = true
+						s.MoveClock()
+						res := w.NextBlockBy(twin)
+						rep.Count("exact_cap_proposals", 1)
+						if len(res.Errs) > 0 {
+							rep.Note("scenario %d stopped at step %d: exact-cap block refused (%v)", sc, i, res.Errs)
+							w.beforeDistribute = nil
+							break
+						}
+						lastOfKind[false] = res.Block
+						doTamper = i%every == 0
+					}
+					for _, old := range twin.TxPool.VerifAll() {
+						twin.TxPool.Remove(old)
+					}
+				}
 			}
 			res := s.Step()
 			w.beforeDistribute = nil
@@ -430,6 +563,9 @@ func TestVerifC03(t *testing.T) {
 				break
 			}
 			lastOfKind[res.Block.IsEmpty()] = res.Block
+			if !res.Block.IsEmpty() {
+				lastByProposer[string(res.Block.Header.ProposedHeader.ProposerPubKey)] = res.Block
+			}
 			for _, a := range w.SortedActors() {
 				if w.View().AppState.ValidatorsCache.IsOnlineIdentity(a.Addr) {
 					everOnline[a.Addr] = true
@@ -461,6 +597,22 @@ func tryTampered(rep *verifutil.Report, w *World, victim *Replica, beforeP *vict
 		return
 	}
 	rep.Count("rejected:"+ErrClass(e2), 1)
+	// once more after the node has validated the honest original (what it does with every proposal
+	// before the vote): the knowledge of the original must not let the variant through
+	if _, e0 := victim.Chain.ValidateBlock(orig, nil, victim.Stats); e0 == nil {
+		rep.Count("variants_offered_after_honest_validation", 1)
+		_, e3 := victim.Chain.ValidateBlock(nb, nil, victim.Stats)
+		e4 := victim.Chain.AddBlock(nb, nil, victim.Stats)
+		if e3 == nil || e4 == nil {
+			rep.Violation("tampered-accepted-after-honest-validation:"+op+":"+kind, fmt.Sprintf("block %d (%s) with tampering %q, offered right after the node validated the honest original: ValidateBlock err=%v, AddBlock err=%v (refused before: %v)", orig.Height(), BlockKind(orig), op, e3, e4, e2),
+				map[string]interface{}{"original": DescribeBlock(orig), "operator": op})
+			if e4 == nil {
+				victim.Chain.ResetTo(orig.Height() - 1)
+			}
+			*beforeP = snapVictim(victim)
+			return
+		}
+	}
 	after := snapVictim(victim)
 	if after != before {
 		what := "db contents"
